@@ -324,6 +324,24 @@ def f2_fanin_extra():
             ),
         )
     )
+    # join: all where one inbound task sits on a conditional branch that is skipped, beside a longer branch
+    out.append(
+        (
+            "fanin-skipped-conditional-branch",
+            WF(
+                {
+                    "a": T([N(S, ["b", "c", "z"])]),
+                    "b": T([N(S, "j")]),
+                    "c": T([N(F, "x")]),
+                    "x": T([N(S, "j")]),
+                    "j": T([N(S, "t")], join="all"),
+                    "t": T(),
+                    "z": T([N(S, "z2")]),
+                    "z2": T(),
+                }
+            ),
+        )
+    )
     # join inside split lineages
     out.append(
         (
@@ -436,8 +454,21 @@ def loop_fork_out_wf(k=2):
     }, vars=[{"n": 0}])
 
 
+def loop_split_forkjoin_wf(k=1):
+    return WF({
+        "init": T([N(S, ["work", "s"])]),
+        "work": T([N(S, ["check", "s"])]),
+        "check": T([N("<%% succeeded() and ctx().n < %d %%>" % k, "work", publish=[("n", "<% ctx().n + 1 %>")])]),
+        "s": T([N(S, ["x", "y"])]),
+        "x": T([N(S, "j")]),
+        "y": T([N(S, "j")]),
+        "j": T(join="all"),
+    }, vars=[{"n": 0}])
+
+
 def f2_loops(tier):
     out = []
+    out.append(("loop-split-forkjoin-k1", loop_split_forkjoin_wf(1), S_ONLY))
     out.append(("loop-fork-out-k1", loop_fork_out_wf(1), S_ONLY))
     out.append(("loop-k1-b1", loop_wf(1, 1)))
     out.append(("loop-k2-b1", loop_wf(2, 1)))
@@ -612,6 +643,11 @@ def f4_defs(tier):
         out.append(
             ("items-n3-kexpr%d" % kv, WF({"t": t}, input=["xs", "k"]), {"xs": [0, 1, 2], "k": kv})
         )
+    # a with-items task with a window beside a task whose failure is handled by a clean-up task
+    t = T(action="core.echo", input={"message": "<% item() %>"})
+    t["with"] = {"items": "<% ctx(xs) %>", "concurrency": 1}
+    out.append(("items-n3-k1-beside-remediated", WF({"t": t, "s": T([N(F, "h")]), "h": T()}, input=["xs", "k"]),
+                {"xs": [0, 1, 2], "k": 1}))
     # repeated item values
     t = T(action="core.echo", input={"message": "<% item() %>"})
     t["with"] = {"items": "<% ctx(xs) %>", "concurrency": 2}
@@ -973,7 +1009,7 @@ def fixed_outcome_scenarios(base, uniq=False, max_full=5):
     return out
 
 
-BIG_PATTERNS = ("items-n4-k2-window", "fanout-join-and-task", "retry-on-join1", "loop-forkjoin", "dict-two-terminals",
+BIG_PATTERNS = ("items-n4-k2-window", "fanin-skipped-conditional", "fanout-join-and-task", "retry-on-join1", "loop-forkjoin", "dict-two-terminals",
                 "fork-nojoin-publish", "split-nested", "fanin-in-split", "-m3-", "-m4-", "fj3-tail", "fj-two-level", "items-n4", "items-n3-knone",
                 "items-n3-k4", "-l2", "-tail", "two-joins", "cleanup-par", "fanin-remediated", "-j1-", "split-2",
                 "decide-merge", "fanin-parallel-edges")
@@ -1287,7 +1323,8 @@ def f3_dev(s, tier):
     return 3 if n <= 6 else 2
 
 
-HUGE_PATTERNS = ("split-nested", "fanin-in-split", "splits-nested", "fj-two-level", "loop-fork-out")
+HUGE_PATTERNS = ("split-nested", "fanin-in-split", "splits-nested", "fj-two-level", "loop-fork-out",
+                 "loop-split-forkjoin")
 
 
 def is_huge(s):
